@@ -3,26 +3,33 @@ edge + load/store callbacks), one per optimisation level."""
 import os
 import time
 
-PROFILES = {"quick": [("release", "traced-O3")],
-            "thorough": [("release", "traced-O3"), ("opt-s", "traced-Os"), ("opt1", "traced-O1")]}
+# (cargo profile, flavour name, single parameter set or None = all three)
+PROFILES = {"quick": [("release", "traced-O3", None), ("release", "traced-O3-only-ml-dsa-44", "ml-dsa-44")],
+            "thorough": [("release", "traced-O3", None), ("opt-s", "traced-Os", None), ("opt1", "traced-O1", None),
+                         ("release", "traced-O3-only-ml-dsa-44", "ml-dsa-44"), ("release", "traced-O3-only-ml-dsa-65", "ml-dsa-65"),
+                         ("release", "traced-O3-only-ml-dsa-87", "ml-dsa-87")]}
 
 
-def build(chk, profile):
+def build(chk, profile, only=None):
+    """only: build the library with a single parameter set (code that is cfg'd on the feature set differs)"""
     wrapper = os.path.join(chk.VERIF, "ct", "rustc-wrapper.sh")
+    if only:
+        return chk.cargo_build("ct", profile, features=[only], no_default=True, target_sub="ct-only" + only[-2:], env_extra={"RUSTC_WRAPPER": wrapper})
     return chk.cargo_build("ct", profile, env_extra={"RUSTC_WRAPPER": wrapper})
 
 
 def setup(chk):
     b, _ = build(chk, "release")
-    return b is not None
+    b2, _ = build(chk, "release", "ml-dsa-44")
+    return b is not None and b2 is not None
 
 
 def main(chk, tier):
     t0 = time.time()
     parts = []
     worst = 0
-    for profile, flavour in PROFILES[tier]:
-        binp, _ = build(chk, profile)
+    for profile, flavour, only in PROFILES[tier]:
+        binp, _ = build(chk, profile, only)
         if binp is None:
             chk.die(f"C14: traced harness build failed for profile {profile}")
         part = chk.part_path("C14", flavour)
@@ -41,7 +48,8 @@ def main(chk, tier):
 def replay(chk, path, body):
     fl = body.get("flavour", "traced-O3")
     profile = {"traced-O3": "release", "traced-Os": "opt-s", "traced-O1": "opt1"}.get(fl, "release")
-    binp, _ = build(chk, profile)
+    only = fl.split("-only-")[1] if "-only-" in fl else None
+    binp, _ = build(chk, profile, only)
     if binp is None:
         chk.die("C14 replay: traced harness build failed")
     return chk.run_bin(binp, ["replay", path])
